@@ -171,6 +171,9 @@ class Cache:
         else:
             tmpl_kw = self.template.cache_args.copy()
             tmpl_kw.update(kw)
+            if "timeout" in tmpl_kw:
+                # as for a cache_timeout attribute in the template
+                tmpl_kw["timeout"] = int(tmpl_kw["timeout"])
             if defname and rendering:
                 self._def_regions[defname] = tmpl_kw
         if context and self.impl.pass_context:
